@@ -123,7 +123,8 @@ Record rcfg := mkCfg {
   c_numbered   : names;          (* config['numbered_vars'] *)
   c_instructor : names;          (* config['instructor_vars'] *)
   c_constants  : names;          (* keys of self.constants *)
-  c_suffixes   : names           (* keys of self.suffixes *)
+  c_suffixes   : names;          (* keys of self.suffixes *)
+  c_sampler_deps : names         (* the `depends` of every DependentSampler in config['sample_from'] *)
 }.
 
 Definition cfg_permitted (c : rcfg) : option names :=
@@ -336,9 +337,10 @@ Record box := mkBox {
   b_compare : comparison
 }.
 
-(* get_sibling_formulas: the inputs of the boxes whose key occurs in this box's comparer_params *)
+(* get_sibling_formulas: the inputs of the boxes whose key occurs in this box's comparer_params or in the
+   dependencies of a DependentSampler of its grader (raw_check: required_siblings) *)
 Definition sibling_formulas_of (all : list box) (b : box) : list (str * str) :=
-  let required := flat_map used_variables (b_params b) in
+  let required := flat_map used_variables (b_params b) ++ c_sampler_deps (b_cfg b) in
   map (fun x => (b_key x, b_input x)) (filter (fun x => mem (b_key x) required) all).
 
 (* a sibling input becomes DependentSampler(formula=input): it must be non-empty, parse, resolve, and evaluate *)
